@@ -1,7 +1,7 @@
 /- C05 — fibers follow the coroutine and signal protocol: property theorems over Fiber/Model.lean + Fiber/Boot.lean.
    Every statement quantifies over all machine states / stacks (nesting depths) / scripts; constants (signal and
    status numbers, mask letters, refused-status sets) come from Gen/Fiber.lean, regenerated from the C on every run. -/
-import JanetModel.Fiber.Invariant
+import JanetModel.Fiber.Cleanup
 namespace JanetModel.Props.C05
 open JanetModel.Fiber JanetModel.Gen.Fiber
 
@@ -181,14 +181,9 @@ theorem cleanup_arrival (s : State) (p f : FId) (rest : List FId) (fp ff : Fiber
     rw [unwind]
     simp [hp, hf, hw, hrej.1, hrej.2, halive, hcc]
 
-/-- ☆ `defer`: for every body script and every way the body fiber stops running — return, error, user signals,
-    cancel (= injected error), propagate — the cleanup form is what the parent runs next exactly when the stop is an
-    exit, and after an exit the body can never be re-entered.
-    PARTIAL: proved per arrival of a body signal (`cleanup_arrival` + `finished_never_resumes`), for all states, bodies and
-    forms.  NOT proved: the composition over whole executions, i.e. that the parent's blocked `(resume f)` is completed
-    by nothing but an arrival from its body fiber (holds in the model because a blocked fiber is only written by
-    `unwind`; checked on the implementation by the correspondence and by oracle rule R5). -/
-theorem defer_runs_exactly_once_partial (n : Nat) (form : Tm) (s : State) (p f : FId) (rest : List FId) (fp ff : Fiber)
+/-- one arrival at a `defer` parent, spelled out on the parent's record (the whole-execution statement is
+    `defer_runs_exactly_once` below) -/
+theorem defer_arrival (n : Nat) (form : Tm) (s : State) (p f : FId) (rest : List FId) (fp ff : Fiber)
     (sig : Nat) (v : Val) (hp : s.fiber? p = some fp) (hf : s.fiber? f = some ff) (hw : fp.ctl = .wait (deferCont n form))
     (hmask : ff.mask = maskOfFlags flagsTI) (halive : fp.passThrough = false) (hcc : inCcall fp = false) (hlen : p < s.fibers.length) :
     (sig ∈ exitSignals →
@@ -217,22 +212,23 @@ theorem defer_runs_exactly_once_partial (n : Nat) (form : Tm) (s : State) (p f :
       rcases hs with h | h | h | h | h | h | h <;> subst h <;> decide
 
 
-/-- `edefer` blocks in the same way with its own continuation (status test first, cleanup only on a non-dead exit);
-    `with` is `(def x ctor)` followed by `defer`; both create the body fiber with mask :ti, so `cleanup_arrival`
-    applies verbatim.  PARTIAL in the same sense as `defer_runs_exactly_once_partial`. -/
-theorem edefer_runs_exactly_once_partial (n l : Nat) (form body k : Tm) :
+/-- `edefer` and `with` create the body fiber with the same mask :ti -/
+theorem edefer_mask_facts (n l : Nat) (form body k : Tm) :
     (∃ K, edeferTm n l form body k = .block l (.new 0 body flagsTI (.prim 0 (.resume (.var n) nilA) K)) k) ∧
     (∀ sig, sig ∈ exitSignals → sig = sigOk ∨ testBit (maskOfFlags flagsTI) sig = true) ∧
     (∀ sig, sig ∈ suspendSignals → sig ≠ sigOk ∧ testBit (maskOfFlags flagsTI) sig = false) := by
   refine ⟨⟨_, rfl⟩, ?_, ?_⟩ <;> decide
 
-theorem with_runs_exactly_once_partial (n l : Nat) (ctor : Prim) (dtor body k : Tm) :
+theorem with_is_defer (n l : Nat) (ctor : Prim) (dtor body k : Tm) :
     withTm n l ctor dtor body k
       = .block l (.prim 0 ctor (deferTm (n + 1) 0 (.prim 0 (.pure (.var n)) dtor) body (.ret (.var (n + 1))))) k := rfl
 
 /-- `try`: the body fiber has mask :ie — only an error (or the return) reaches the parent, whose next instruction
     tests `(= (fiber/status f) :error)`; every other signal, including user0-4 which finish the body, passes the
-    parent by (it takes the same status and its catch clause never runs).  PARTIAL as above. -/
+    parent by (it takes the same status and its catch clause never runs).
+    PARTIAL: proved per arrival, for all states.  NOT proved: the whole-execution composition for mask :ie (the
+    argument of `defer_runs_exactly_once` is written for mask :ti, where "the body exited" and "the parent receives the
+    signal" coincide; with :ie the user0-4 exits finish body AND parent without a catch, a different case split). -/
 theorem try_catch_runs_exactly_once_partial (s : State) (p f : FId) (rest : List FId) (fp ff : Fiber) (cont : Cont) (sig : Nat) (v : Val)
     (hp : s.fiber? p = some fp) (hf : s.fiber? f = some ff) (hw : fp.ctl = .wait cont) (hnn : cont.isNext = false)
     (hmask : ff.mask = maskOfFlags flagsIE) (halive : fp.passThrough = false) (hcc : inCcall fp = false) (hs : sig < 14) :
@@ -309,6 +305,103 @@ example :
     let t : Tm := .new 1 fb [121] (.prim 8 (.resume (.var 0) (.lit (.int 30))) (.prim 9 (.cancel (.var 0) (.lit (.int 31))) (.ret (.var 2))))
     let s := run 200 (init t [97])
     ((s.trace.filter (fun e => e.l == 6)).length, s.halt.isSome) = (1, true) := by
+  decide
+
+/-! ## cleanup forms: composition over whole executions -/
+
+/-- the conclusion of the cleanup theorems: after `n` steps from `s`, still blocked with the body not exited, or a first
+    step `i ≤ n` at which the body is finished (for ever) and the code after the macro's resume is what `p` runs -/
+def ExactlyOnce (p f : FId) (cont : Cont) (s : State) (n : Nat) : Prop :=
+  Blk p f cont (run n s) (run n s).stack ∨
+  ∃ i, i ≤ n ∧ (∀ j, j < i → Blk p f cont (run j s) (run j s).stack) ∧
+    ((run i s).halt ≠ none ∨
+     (Exited p f cont (run i s) ∧ ∀ m, ∃ ff, (run m (run i s)).fiber? f = some ff ∧ isFinished ff.status = true))
+
+/-- ★ `defer` / `edefer` / `with` — exactly once, on exit, for EVERY body script, EVERY exit path (return, error, user
+    signals, cancel from anywhere, propagate, refusals, C re-entry coercion), EVERY interleaving with other fibers and
+    any number of steps.  `p` is the fiber blocked in the macro's `(resume f)` (`Blk`: waiting in `cont`, child `f`, no
+    pending signal, not inside a janet_call; `f` has mask :ti and has not exited).  Then at every later time either
+    `p` is still blocked and `f` still has not exited (no cleanup yet, none missed), or there was a FIRST step `i` before
+    which `p` was blocked all along and after which the body fiber is finished and the code following the resume
+    (`contK cont`: for `defer` the cleanup form, for `edefer` the status test that guards it) is what `p` executes; and from
+    then on `f` is finished for ever, so (`resume_finished_raises`) the macro's resume can never complete a second time.
+    Hypothesis `Priv`: the body fiber is private to the macro — no other fiber has it as child, no instruction names it as
+    its fiber operand, and no `cancel` walk ends on `p` (the gensym'd `f` of boot.janet guarantees the first two unless the
+    body leaks `(fiber/current)`; the third can only fail on a cyclic child chain).  `priv_is_needed` shows the
+    hypothesis cannot be dropped.  Needs the patched janet_continue_no_check (`chainAliveMarked`): on the unpatched tree
+    the body can re-enter its own suspended ancestor and the statement is false (corpus/C05/ancestor-reentry.json). -/
+theorem defer_runs_exactly_once (p f : FId) (cont : Cont) (s : State) (hinv : Inv s) (hne : p ≠ f)
+    (hb : Blk p f cont s s.stack) (hpriv : ∀ i, Priv p f (run i s)) (n : Nat) : ExactlyOnce p f cont s n := by
+  unfold ExactlyOnce
+  rcases blocked_until_exit n s hinv hne hb hpriv with h | ⟨i, hi, hbefore, hat⟩
+  · exact Or.inl h
+  · refine Or.inr ⟨i, hi, hbefore, ?_⟩
+    rcases hat with h | h
+    · exact Or.inl h
+    · refine Or.inr ⟨h, fun m => ?_⟩
+      obtain ⟨⟨ff, hff, hfin⟩, _⟩ := h
+      obtain ⟨ff', h1, h2⟩ := finished_is_forever (run i s) (run_res i s hinv).2 m f ff hff hfin
+      exact ⟨ff', h1, h2 ▸ hfin⟩
+
+/-- what `p` executes after the exit: for `defer` the cleanup form itself … -/
+theorem defer_next_is_cleanup (n : Nat) (form : Tm) :
+    contK (deferCont n form) = .block 0 form (.prim 0 (.status (.var n))
+      (.ite (.var (n + 3)) (kwA "dead") (.ret (.var (n + 1)))
+        (.prim 0 (.propagate (.var (n + 1)) (.var n)) (.ret (.var (n + 4)))))) := rfl
+
+/-- the instruction in which the parent of an `edefer` body is blocked -/
+def edeferCont (n : Nat) (form : Tm) : Cont :=
+  .bindK 0 (.prim 0 (.status (.var n))
+    (.ite (.var (n + 2)) (kwA "dead") (.ret (.var (n + 1)))
+      (.block 0 form (.prim 0 (.propagate (.var (n + 1)) (.var n)) (.ret (.var (n + 4))))))) false
+
+/-- … for `edefer` the test `(= (fiber/status f) :dead)` that guards the cleanup form (so: cleanup iff the exit was abnormal) -/
+theorem edefer_shape (n l : Nat) (form body k : Tm) :
+    edeferTm n l form body k = .block l (.new 0 body flagsTI (.prim 0 (.resume (.var n) nilA) (contK (edeferCont n form)))) k := rfl
+
+theorem defer_shape (n l : Nat) (form body k : Tm) :
+    deferTm n l form body k = .block l (.new 0 body flagsTI (.prim 0 (.resume (.var n) nilA) (contK (deferCont n form)))) k := rfl
+
+
+/-- ★ `edefer`: same statement with `edeferCont` — the code that runs at the exit is the status test guarding the form -/
+theorem edefer_runs_exactly_once (p f : FId) (n : Nat) (form : Tm) (s : State) (hinv : Inv s) (hne : p ≠ f)
+    (hb : Blk p f (edeferCont n form) s s.stack) (hpriv : ∀ i, Priv p f (run i s)) (m : Nat) :
+    ExactlyOnce p f (edeferCont n form) s m :=
+  defer_runs_exactly_once p f (edeferCont n form) s hinv hne hb hpriv m
+
+/-- ★ `with`: `(def x ctor)` followed by `defer` one slot deeper (`with_is_defer`), destructor call as the form -/
+theorem with_runs_exactly_once (p f : FId) (n : Nat) (dtor : Tm) (s : State) (hinv : Inv s) (hne : p ≠ f)
+    (hb : Blk p f (deferCont (n + 1) (.prim 0 (.pure (.var n)) dtor)) s s.stack) (hpriv : ∀ i, Priv p f (run i s)) (m : Nat) :
+    ExactlyOnce p f (deferCont (n + 1) (.prim 0 (.pure (.var n)) dtor)) s m :=
+  defer_runs_exactly_once p f (deferCont (n + 1) (.prim 0 (.pure (.var n)) dtor)) s hinv hne hb hpriv m
+
+/-- the hypotheses are satisfiable: run a fiber whose `defer` body yields; after that the parent (fiber 2) is blocked on
+    the body fiber (fiber 3), which has not exited -/
+example :
+    let body : Tm := .prim 3 (.pure (.lit (.int 10))) (.prim 4 (.yield (.lit (.int 11))) (.ret (.lit (.int 13))))
+    let form : Tm := .prim 6 (.pure (.lit (.int 20))) (.ret (.lit (.int 21)))
+    let t : Tm := .new 1 (deferTm 0 7 form body (.ret (.var 0))) [121] (.prim 8 (.resume (.var 0) (.lit (.int 30))) (.ret (.var 1)))
+    let s := run 12 (init t [97])
+    (match s.fiber? 2, s.fiber? 3 with
+     | some fp, some ff => decide (fp.child = some 3) && decide (fp.pending = none) && !inCcall fp && decide (ff.mask = maskOfFlags flagsTI)
+                           && !ff.root && !isFinished ff.status && (match fp.ctl with | .wait c => !c.isNext | _ => false)
+                           && !(s.stack.contains 2) && !(s.stack.contains 3) && decide (fp.status ≠ stAlive) && decide (ff.status ≠ stAlive)
+     | _, _ => false) = true := by
+  decide
+
+/-- `Priv` cannot be dropped: if another fiber resumes the macro's body fiber directly (here the main fiber, through the
+    registry), the body finishes while the parent is still blocked — neither "blocked with the body not exited" nor "exited
+    with the cleanup next" holds, and the cleanup form (label 6) has not run. -/
+theorem priv_is_needed :
+    let body : Tm := .prim 3 (.pure (.lit (.int 10))) (.prim 4 (.yield (.lit (.int 11))) (.ret (.lit (.int 13))))
+    let form : Tm := .prim 6 (.pure (.lit (.int 20))) (.ret (.lit (.int 21)))
+    let t : Tm := .new 1 (deferTm 0 7 form body (.ret (.var 0))) [121]
+      (.prim 8 (.resume (.var 0) (.lit (.int 30))) (.prim 9 (.resume (.glob 3) (.lit (.int 31))) (.prim 10 (.pure (.lit .nil)) (.ret (.var 2)))))
+    let s := run 16 (init t [97])
+    (match s.fiber? 2, s.fiber? 3 with
+     | some fp, some ff => isFinished ff.status && (match fp.ctl with | .wait _ => true | _ => false) && decide (fp.child = some 3)
+                           && decide ((s.trace.filter (fun e => e.l == 6)).length = 0)
+     | _, _ => false) = true := by
   decide
 
 /-! ## dynamic bindings -/
